@@ -35,7 +35,31 @@ func (e *Exec) unop(fr *frame, instr *ssa.UnOp, x Value) Value {
 	panic(errorf("unop %v on %T", instr.Op, x))
 }
 
+// coerceRealInt: when one operand is an integer carried as a real and the other a
+// bit-vector constant, lift the constant.
+func (e *Exec) coerceRealInt(t types.Type, x, y Value) (Value, Value) {
+	xt, ok1 := x.(*Term)
+	yt, ok2 := y.(*Term)
+	if !ok1 || !ok2 || xt.Sort.K == yt.Sort.K {
+		return x, y
+	}
+	lift := func(c *Term) *Term {
+		_, signed := e.intWidth(t)
+		return e.B.BvToReal(c, signed)
+	}
+	if xt.Sort.K == SReal && yt.Sort.K == SBV && yt.IsConst() {
+		return xt, lift(yt)
+	}
+	if yt.Sort.K == SReal && xt.Sort.K == SBV && xt.IsConst() {
+		return lift(xt), yt
+	}
+	return x, y
+}
+
 func (e *Exec) binop(op token.Token, t types.Type, x, y Value, instr ssa.Instruction) Value {
+	if isIntegerType(t) {
+		x, y = e.coerceRealInt(t, x, y)
+	}
 	switch op {
 	case token.EQL:
 		return e.equals(t, x, y)
@@ -51,6 +75,9 @@ func (e *Exec) binop(op token.Token, t types.Type, x, y Value, instr ssa.Instruc
 		case SBV:
 			return e.intBinop(op, t, xv, yt, instr)
 		case SFP, SReal:
+			if isInteger(t) {
+				return e.realIntBinop(op, xv, yt)
+			}
 			return e.floatBinop(op, floatWidth(t), xv, yt, instr)
 		}
 	case StringV:
@@ -251,7 +278,7 @@ func (e *Exec) realDiv(x, y *Term, instr ssa.Instruction) *Term {
 		e.assume(e.B.Not(e.B.Eq(y, zero)))
 	}
 	q := e.B.Fresh("q", RealSort)
-	e.assume(e.B.Eq(e.B.RBin(ORMul, q, y), x))
+	e.assumeDef(e.B.Eq(e.B.RBin(ORMul, q, y), x))
 	return q
 }
 
@@ -288,7 +315,7 @@ func (e *Exec) roundReal(x *Term, w int, constArgs bool) *Term {
 	zero := e.B.RealConst(new(big.Rat))
 	abs := e.B.Ite(e.B.RCmp(ORLe, zero, x), x, e.B.RNeg(x))
 	bound := e.B.RBin(ORAdd, e.B.RBin(ORMul, e.B.RealConst(u), abs), e.B.RealConst(eta))
-	e.assume(e.B.And(e.B.RCmp(ORLe, e.B.RNeg(bound), er), e.B.RCmp(ORLe, er, bound)))
+	e.assumeDef(e.B.And(e.B.RCmp(ORLe, e.B.RNeg(bound), er), e.B.RCmp(ORLe, er, bound)))
 	res := e.B.RBin(ORAdd, x, er)
 	if e.Cfg.MonotoneRounding {
 		// rounding to nearest is one monotone function per width: p <= q => fl(p) <= fl(q)
@@ -296,8 +323,8 @@ func (e *Exec) roundReal(x *Term, w int, constArgs bool) *Term {
 			if prev.w != w {
 				continue
 			}
-			e.assume(e.B.Implies(e.B.RCmp(ORLe, prev.exact, x), e.B.RCmp(ORLe, prev.rounded, res)))
-			e.assume(e.B.Implies(e.B.RCmp(ORLe, x, prev.exact), e.B.RCmp(ORLe, res, prev.rounded)))
+			e.assumeDef(e.B.Implies(e.B.RCmp(ORLe, prev.exact, x), e.B.RCmp(ORLe, prev.rounded, res)))
+			e.assumeDef(e.B.Implies(e.B.RCmp(ORLe, x, prev.exact), e.B.RCmp(ORLe, res, prev.rounded)))
 		}
 		e.roundings = append(e.roundings, roundingSite{x, res, w})
 		e.noteAssumption("IEEE-754 round-to-nearest is a monotone function (instantiated for every pair of rounded operations of equal width)")
@@ -496,7 +523,7 @@ func (e *Exec) floatToInt(t *Term, db *types.Basic) Value {
 		}
 		k := e.B.IntToReal(e.B.Fresh("trunc", IntSort))
 		one := e.B.RealConst(big.NewRat(1, 1))
-		e.assume(e.B.And(e.B.RCmp(ORLe, k, t), e.B.RCmp(ORLt, t, e.B.RBin(ORAdd, k, one))))
+		e.assumeDef(e.B.And(e.B.RCmp(ORLe, k, t), e.B.RCmp(ORLt, t, e.B.RBin(ORAdd, k, one))))
 		e.noteAssumption("real modes: float->int truncation is to_real of an integer k with k <= t < k+1; integer-typed values derived from it are carried as reals (no wrap-around modelled)")
 		return k
 	}
@@ -577,4 +604,31 @@ func nativeFloatToInt(f float64, fw, dw int, dsigned bool) uint64 {
 type roundingSite struct {
 	exact, rounded *Term
 	w              int
+}
+
+// realIntBinop: integer-typed values carried as reals (real-arithmetic harnesses):
+// exact arithmetic and comparisons, no wrap-around.
+func (e *Exec) realIntBinop(op token.Token, x, y *Term) Value {
+	switch op {
+	case token.ADD:
+		return e.B.RBin(ORAdd, x, y)
+	case token.SUB:
+		return e.B.RBin(ORSub, x, y)
+	case token.MUL:
+		return e.B.RBin(ORMul, x, y)
+	case token.LSS:
+		return e.B.RCmp(ORLt, x, y)
+	case token.LEQ:
+		return e.B.RCmp(ORLe, x, y)
+	case token.GTR:
+		return e.B.RCmp(ORLt, y, x)
+	case token.GEQ:
+		return e.B.RCmp(ORLe, y, x)
+	}
+	panic(errorf("operator %v on an integer carried as a real", op))
+}
+
+func isIntegerType(t types.Type) bool {
+	b, ok := t.Underlying().(*types.Basic)
+	return ok && b.Info()&types.IsInteger != 0
 }
